@@ -222,7 +222,12 @@ class TimedList(Generic[Item]):
             ``TimedList`` with ``rows`` default
         """
         df = pd.DataFrame(cls._default())
-        return cls(df.loc[df.index.repeat(rows)].reset_index(drop=True))
+        df = df.loc[df.index.repeat(rows)].reset_index(drop=True)
+        for col_name, (_, default) in cls._item_class()._props.items():
+            if isinstance(default, list):
+                # a list default is one fresh list per row (an empty Series reads as NaN)
+                df[col_name] = [list(default) for _ in range(rows)]
+        return cls(df)
 
     def append(
         self, val: Series | TimedList | pd.Series | pd.DataFrame, sort: bool = False
